@@ -984,6 +984,13 @@ func RunCase(line string) (impl, fail, sig string, err error) {
 		}
 		impl, fail, sig = c.run(200)
 		return impl, fail, sig, nil
+	case "flbin":
+		b, sw, err := parseFLBin(items)
+		if err != nil {
+			return "", "", "", err
+		}
+		impl, fail, sig = runFLBin(b, sw)
+		return impl, fail, sig, nil
 	case "kern":
 		if len(items) != 2 {
 			return "", "", "", errors.New("kern case: want 2 items")
